@@ -142,7 +142,13 @@ def run_reduce1d(E, case):
         if case["func"] == "count":
             return no["reduce"](arr, "count", n_threads=case["threads"])
         return f(arr, n_threads=case["threads"])
-    paths = run_paths(body)
+    try:
+        paths = run_paths(body)
+    except (Unsupported, OutsideModel):
+        raise
+    except Exception as e:      # noqa: BLE001 - the helper fails on valid input
+        from . import common as _common
+        return _common.raises_result(E, inp, PROP, case['kind'] + ':' + str(case.get('func', '')), case, e, t0)
     check = spec_1d(case["func"], xs, dt)
     bads = []
     for pc, r, _ in paths:
@@ -167,7 +173,13 @@ def run_reduce2d(E, case):
     def body():
         arr = A(xs, dt, (r_, c_)).tag("input:arr")
         return no[case["func"]](arr, axis=case["axis"], n_threads=1)
-    paths = run_paths(body)
+    try:
+        paths = run_paths(body)
+    except (Unsupported, OutsideModel):
+        raise
+    except Exception as e:      # noqa: BLE001 - the helper fails on valid input
+        from . import common as _common
+        return _common.raises_result(E, inp, PROP, case['kind'] + ':' + str(case.get('func', '')), case, e, t0)
     bads = []
     for pc, out, _ in paths:
         pcz = b_and(*pc) if pc else True
@@ -197,7 +209,13 @@ def run_var(E, case):
         def body():
             arr = A(xs, "float64").tag("input:arr")
             return no[case["func"]](arr, ddof=ddof, n_threads=case.get("threads", 1))
-        paths = run_paths(body)
+        try:
+            paths = run_paths(body)
+        except (Unsupported, OutsideModel):
+            raise
+        except Exception as e:      # noqa: BLE001 - the helper fails on valid input
+            from . import common as _common
+            return _common.raises_result(E, inp, PROP, case['kind'] + ':' + str(case.get('func', '')), case, e, t0)
         bads = []
         valid = [vs[i] for i in range(L) if not nulls[i]]
         for pc, r, _ in paths:
@@ -235,7 +253,13 @@ def run_dot(E, case):
     try:
         def body():
             return ut["nb_dot"](A(a, dt, (r_, c_)).tag("input:a"), A(b, dt).tag("input:b"))
-        paths = run_paths(body)
+        try:
+            paths = run_paths(body)
+        except (Unsupported, OutsideModel):
+            raise
+        except Exception as e:      # noqa: BLE001 - the helper fails on valid input
+            from . import common as _common
+            return _common.raises_result(E, inp, PROP, case['kind'] + ':' + str(case.get('func', '')), case, e, t0)
         bads = []
         for pc, out, _ in paths:
             pcz = b_and(*pc) if pc else True
@@ -266,7 +290,13 @@ def run_bools(E, case):
     def body():
         df = FakeFrame({k: A(v, "bool").tag("input:df") for k, v in cols.items()}, index=LIndex(list(range(R))))
         return ut["bools_to_categorical"](df)
-    paths = run_paths(body, prune=True)
+    try:
+        paths = run_paths(body, prune=True)
+    except (Unsupported, OutsideModel):
+        raise
+    except Exception as e:      # noqa: BLE001 - the helper fails on valid input
+        from . import common as _common
+        return _common.raises_result(E, inp, PROP, case['kind'] + ':' + str(case.get('func', '')), case, e, t0)
     bads = []
     for pc, out, _ in paths:
         pcz = b_and(*pc) if pc else True
@@ -360,7 +390,13 @@ def run_pretty_cut(E, case):
 
     def body():
         return ut["pretty_cut"](A(xs, dt).tag("input:x"), A(list(case["bins"]), case["bins_dtype"]).tag("input:bins"))
-    paths = run_paths(body)
+    try:
+        paths = run_paths(body)
+    except (Unsupported, OutsideModel):
+        raise
+    except Exception as e:      # noqa: BLE001 - the helper fails on valid input
+        from . import common as _common
+        return _common.raises_result(E, inp, PROP, case['kind'] + ':' + str(case.get('func', '')), case, e, t0)
     bads = []
     for pc, out, _ in paths:
         pcz = b_and(*pc) if pc else True
